@@ -2020,9 +2020,9 @@ def run(ctx):
     if on("api_shapes"):
         api_shapes(ctx, pool, 1200 if ctx.thorough else 130)
     if on("exotic_keys"):
-        exotic_keys(ctx, pool, 1500 if ctx.thorough else 130)
+        exotic_keys(ctx, pool, 1000 if ctx.thorough else 130)
     if on("literal_texts"):
-        literal_texts(ctx, 8000 if ctx.thorough else 450)
+        literal_texts(ctx, 6000 if ctx.thorough else 450)
     if on("parser_strings_x"):
         parser_strings_x(ctx, 5000 if ctx.thorough else 400)
     if on("parser_strings"):
